@@ -16,7 +16,7 @@ class C09(FloCheck):
             "the done-conditions by the reference interpreter; non-trivial = an auxiliary was entered at least twice in the "
             "run; distinct = digest of per-run (status, active outline)")
     assumptions = ["done-conditions are compared through the transitions they guard (reference interpreter)"]
-    directed_files = ("flo-done-verb-in-exit-of-cond-aux-frame",)
+    directed_files = ("flo-done-verb-in-exit-of-cond-aux-frame", "flo-start-of-readied-framer-whose-aux-was-taken")
     required_probes = ["aux-reentered", "aux-exited-with-main", "done-need", "named-done-verb"]
 
     def invariants(self, plan, res, impl, out):
